@@ -103,6 +103,8 @@ impl WorldRun {
             "settl" => { let id = op["id"].as_i64().unwrap();
                 if op["T"] == "A" { self.app.world.get_mut::<Animator<A>>(e).unwrap().set_timeline(pool_tl!(A, id)); }
                 else { self.app.world.get_mut::<Animator<B>>(e).unwrap().set_timeline(pool_tl!(B, id)); } }
+            "setpos" => { let p = Duration::from_secs_f32(op["p"].as_i64().unwrap() as f32 * TICK);
+                if op["T"] == "A" { self.app.world.get_mut::<Animator<A>>(e).unwrap().timeline_position = p; } else { self.app.world.get_mut::<Animator<B>>(e).unwrap().timeline_position = p; } }
             o => panic!("op {o}"),
         }
     }
@@ -154,14 +156,16 @@ fn drive(seed: u64, nworlds: u64, nframes: u64, out: &str) -> Value {
         for _ in 0..nframes {
             // user operations between frames
             if rng.below(4) == 0 {
-                let op = match rng.below(if hassel { 6 } else { 5 }) {
+                let op = match rng.below(if hassel { 7 } else { 6 }) {
                     0 => json!({"ev":"op","op":"enable","T":"A","b": rng.below(2) == 0}),
                     1 => json!({"ev":"op","op":"reset","T": if hasb && rng.below(2) == 0 { "B" } else { "A" }}),
                     2 if !hassel => json!({"ev":"op","op":"settl","T":"A","id": 1 + rng.below(POOL.len() as u64)}),
                     2 | 3 if hassel => json!({"ev":"op","op":"key","k": 1 + rng.below(3)}),
                     3 if hasb => json!({"ev":"op","op":"settl","T":"B","id": 1 + rng.below(POOL.len() as u64)}),
                     4 if hasb => json!({"ev":"op","op":"enable","T":"B","b": rng.below(2) == 0}),
+                    5 if !hassel => { let p = [0i64, 2, 7, 30][rng.below(4) as usize]; json!({"ev":"op","op":"setpos","T":"A","p": p}) }
                     5 => json!({"ev":"op","op":"key","k": 1 + rng.below(3)}),
+                    6 if hassel => { let p = [0i64, 2, 7, 30][rng.below(4) as usize]; json!({"ev":"op","op":"setpos","T":"A","p": p}) }
                     _ => json!({"ev":"op","op":"enable","T":"A","b": true}),
                 };
                 w.apply_op(&op);
